@@ -234,6 +234,14 @@ func detrestPose(r *Rng, s *gozxing.BitMatrix, kind string, maxDim int) detrestI
 	case 3: // noise
 		c06detNoise(r, m, r.Pick([]int{1, 3, 20}))
 		class += "-noise"
+	case 5: // the last set cell in the column of the first one (left == right) or one column off: the sanity check
+		if tl := m.GetTopLeftOnBit(); tl != nil {
+			if br := m.GetBottomRightOnBit(); br != nil && br[1] == h-1 { // no quiet zone below: clear the rest of the last row
+				c06detRect(m, 0, h-1, w-1, h-1, false)
+			}
+			c06detSet(m, tl[0]+r.Pick([]int{0, 0, 0, 1, -1}), h-1, true)
+		}
+		class += "-last-under-first"
 	case 4: // transposed / rotated
 		m = c06Transpose(m)
 		if r.Bool() {
